@@ -242,7 +242,10 @@ class DataflowAnalysisAttacher(Transformer):
         defines = OrderedSet()
         uses = OrderedSet(conditions)
         for b in o.bodies:
-            _b, defines, uses = self._visit_body(b, live=live, uses=uses, defines=defines, **kwargs)
+            # The bodies of WHERE / ELSEWHERE act on disjoint sets of elements: symbols defined in
+            # an earlier body are live in later ones but do not shield their uses
+            _b, _defines, uses = self._visit_body(b, live=live|defines, uses=uses, **kwargs)
+            defines |= _defines
             body += (_b,)
 
         default, default_defs, uses = self._visit_body(o.default, live=live, uses=uses, **kwargs)
